@@ -12,6 +12,8 @@ from . import c10, c07
 
 
 def run(ctx):
+    from .configtime import derived_values as _derived
+    _derived(ctx, 'C17.R4', ('Recipe', 'RecipeStep', 'Container', 'Plate', 'PlateSlicer', 'Slicer'))
     # per-well amounts gathered with numpy.vectorize need an explicit result type: without it the type of the first
     # well decides, and an empty first well (int 0) truncates every later amount to whole storage units
     from .c15 import t5 as _vectorize_dtype
